@@ -12,7 +12,9 @@ from .. import ref
 from ..lab import CONTENTS, MD5, make_odb, put_raw
 from ..world import World, digest_obj
 
-D = {"a": "x", "s/b": "y", "s/t/c": "z", "u/v/w/leaf": "w"}   # u, u/v, u/v/w hold no file themselves
+# u, u/v, u/v/w hold no file themselves; one name contains a backslash
+D = {"a": "x", "s/b": "y", "s/t/c": "z", "u/v/w/leaf": "w", "q\\r": "y"}
+EMPTY_OID = ref.tree_oid({})   # the directory object of an empty directory (listing [])
 N = {"k": "w", "m/q": "x", "m/z": "e"}   # m/z is an empty file; N's directory object records sizes
 
 
@@ -36,6 +38,7 @@ def fill(odb):
     lst = {r: MD5[c] for r, c in D.items()}
     put_raw(odb, ref.tree_oid(lst), ref.tree_bytes(lst))
     put_raw(odb, oid_of(N), n_listing_bytes())
+    put_raw(odb, EMPTY_OID, ref.tree_bytes({}))
 
 
 def make_index(kind, backend, w, odb, tag):
@@ -49,6 +52,11 @@ def make_index(kind, backend, w, odb, tag):
         idx[k] = DataIndexEntry(key=k, **kw)
 
     put(("f",), meta=Meta(size=1), hash_info=HashInfo("md5", MD5["x"]))
+    put((".f",), meta=Meta(size=3), hash_info=HashInfo("md5", MD5["w"]))   # a dot-file next to its dot-less sibling
+    if kind == "lazy":
+        put(("z0",), meta=Meta(isdir=True), hash_info=HashInfo("md5", EMPTY_OID))
+    else:
+        put(("z0",), meta=Meta(isdir=True), hash_info=HashInfo("md5", EMPTY_OID), loaded=True)
     put(("e",), meta=Meta(isdir=True), loaded=True)
     put(("e", "g"), meta=Meta(size=1), hash_info=HashInfo("md5", MD5["y"]))
     if kind == "lazy":
@@ -75,11 +83,11 @@ def make_index(kind, backend, w, odb, tag):
     return idx
 
 
-TWIN_KEYS = [("f",), ("e",), ("e", "g"), ("d",), ("e", "n"),
+TWIN_KEYS = [("f",), (".f",), ("z0",), ("d", "q\\r"), ("e",), ("e", "g"), ("d",), ("e", "n"),
              ("d", "a"), ("d", "s"), ("d", "s", "b"), ("d", "s", "t"), ("d", "s", "t", "c"),
              ("d", "u"), ("d", "u", "v"), ("d", "u", "v", "w"), ("d", "u", "v", "w", "leaf"),
              ("e", "n", "k"), ("e", "n", "m"), ("e", "n", "m", "q"), ("e", "n", "m", "z")]
-DIR_KEYS = [(), ("e",), ("d",), ("e", "n"), ("d", "s"), ("d", "s", "t"), ("e", "n", "m"), ("d", "u"),
+DIR_KEYS = [(), ("z0",), ("e",), ("d",), ("e", "n"), ("d", "s"), ("d", "s", "t"), ("e", "n", "m"), ("d", "u"),
             ("d", "u", "v")]
 ABSENT = [("zz",), ("d", "zz"), ("d", "a", "zz"), ("e", "n", "zz"), ("d", "s", "zz")]
 
@@ -111,12 +119,12 @@ def queries():
         q.append(("view-ls", f, ()))
         q.append(("view-ls", f, ("d",)))
         q.append(("view-ls", f, ("e", "n")))
-    for p in ("/", "/d", "/d/s", "/e/n", "/e/n/m", "/f", "/zz", "/d/s/t", "/d/u", "/d/u/v/w"):
+    for p in ("/", "/d", "/d/s", "/e/n", "/e/n/m", "/f", "/.f", "/z0", "/zz", "/d/s/t", "/d/u", "/d/u/v/w"):
         q.append(("fs-ls", p))
         q.append(("fs-info", p))
     q.append(("fs-find", "/"))
     q.append(("fs-find", "/d/s"))
-    for p in ("/f", "/d/a", "/d/s/t/c", "/e/n/m/q", "/e/n/m/z", "/e/g", "/d/zz", "/d/u/v/w/leaf"):
+    for p in ("/f", "/.f", "/d/q\\r", "/d/a", "/d/s/t/c", "/e/n/m/q", "/e/n/m/z", "/e/g", "/d/zz", "/d/u/v/w/leaf"):
         q.append(("fs-cat", p))
         q.append(("fs-get", p))
         q.append(("fs-checksum", p))
@@ -225,10 +233,10 @@ def expected_extra(q):
         f = FILTERS[q[1]]
         return sorted(k for k in TWIN_KEYS if f(k))
     if q[0] in ("fs-cat", "fs-get"):
-        want = {"/f": "x", "/d/a": "x", "/d/s/t/c": "z", "/e/n/m/q": "x", "/e/n/m/z": "e", "/e/g": "y", "/d/u/v/w/leaf": "w"}
+        want = {"/f": "x", "/d/a": "x", "/d/s/t/c": "z", "/e/n/m/q": "x", "/e/n/m/z": "e", "/e/g": "y", "/d/u/v/w/leaf": "w", "/.f": "w", "/d/q\\r": "y"}
         return CONTENTS[want[q[1]]] if q[1] in want else ("EXC", "FileNotFoundError")
     if q[0] == "fs-checksum":
-        want = {"/f": "x", "/d/a": "x", "/d/s/t/c": "z", "/e/n/m/q": "x", "/e/n/m/z": "e", "/e/g": "y", "/d/u/v/w/leaf": "w"}
+        want = {"/f": "x", "/d/a": "x", "/d/s/t/c": "z", "/e/n/m/q": "x", "/e/n/m/z": "e", "/e/g": "y", "/d/u/v/w/leaf": "w", "/.f": "w", "/d/q\\r": "y"}
         return MD5[want[q[1]]] if q[1] in want else ("EXC", "FileNotFoundError")
     if q[0] == "diff":
         return []
@@ -301,7 +309,7 @@ def storage_index_case(case):
 
     res = {"n": 0, "trans": 0, "states": [], "outcomes": set(), "nontrivial": set(), "viol": [],
            "vac": {"storage_index_reads": 0}}
-    want = {"/f": "x", "/d/a": "x", "/d/s/t/c": "z", "/e/n/m/q": "x", "/e/n/m/z": "e", "/e/g": "y", "/d/u/v/w/leaf": "w"}
+    want = {"/f": "x", "/d/a": "x", "/d/s/t/c": "z", "/e/n/m/q": "x", "/e/n/m/z": "e", "/e/g": "y", "/d/u/v/w/leaf": "w", "/.f": "w", "/d/q\\r": "y"}
     for scen in ("empty-cache-index", "stale-cache-index-remote-has-it"):
         with World() as w:
             cache = make_odb("local", w.p("cache"))
